@@ -9,6 +9,7 @@ enum MathFn
     FN_SINCOS, // 1 in, 2 out
     FN_ATAN2, FN_HYPOT, FN_POW, // 2 in
     FN_FABS, FN_ABS, FN_RINT, FN_NEARBYINT, // identities of C12
+    FN_IPOW, // pow(batch, int): in1[first lane of the batch] holds the integer exponent (C14 only)
     FN_COUNT
 };
 struct MathFnInfo
@@ -20,7 +21,7 @@ static const MathFnInfo MATHFN[FN_COUNT] = {
     { "sqrt", 1, 1 }, { "exp", 1, 1 }, { "exp2", 1, 1 }, { "exp10", 1, 1 }, { "expm1", 1, 1 }, { "log", 1, 1 }, { "log2", 1, 1 }, { "log10", 1, 1 }, { "log1p", 1, 1 },
     { "sin", 1, 1 }, { "cos", 1, 1 }, { "tan", 1, 1 }, { "asin", 1, 1 }, { "acos", 1, 1 }, { "atan", 1, 1 }, { "sinh", 1, 1 }, { "cosh", 1, 1 }, { "tanh", 1, 1 },
     { "asinh", 1, 1 }, { "acosh", 1, 1 }, { "atanh", 1, 1 }, { "cbrt", 1, 1 }, { "erf", 1, 1 }, { "erfc", 1, 1 }, { "tgamma", 1, 1 }, { "lgamma", 1, 1 },
-    { "sincos", 1, 2 }, { "atan2", 2, 1 }, { "hypot", 2, 1 }, { "pow", 2, 1 }, { "fabs", 1, 1 }, { "abs", 1, 1 }, { "rint", 1, 1 }, { "nearbyint", 1, 1 },
+    { "sincos", 1, 2 }, { "atan2", 2, 1 }, { "hypot", 2, 1 }, { "pow", 2, 1 }, { "fabs", 1, 1 }, { "abs", 1, 1 }, { "rint", 1, 1 }, { "nearbyint", 1, 1 }, { "pow_int_exponent", 2, 1 },
 };
 // C ABI exported by every lib<arch>.so
 extern "C"
